@@ -27,6 +27,14 @@ DS = "precondition.distributed_shampoo"
 RS = "precondition.tearfree.reshaper"
 TS = "precondition.tearfree.shampoo"
 
+STRUCTURAL = [
+    "merge_small_dims: symbolic rank (loop invariant), symbolic dims and limit",
+    "BlockPartitioner.__init__: rank 0..5, symbolic dims and block size, symbolic number of blocks",
+    "Preconditioner bookkeeping: rank 1..3 x 3 preconditioner types x {1,2[,3]} blocks per axis x compression on/off, symbolic dims/block size/compression rank",
+    "reshaper: rank 0..4 x {block_size=0, symbolic block size>=2}, symbolic dims and merge limit",
+    "tearfree shampoo blocks: rank 0..5 x every placement of 0,1,2 large axes, symbolic dims / block size / block counts",
+]
+
 NOT_COVERED = [
     "numerical identity-preconditioning (claimed only structurally through C02's axis-provenance obligations)",
     "partition/merge_partitions round trip for a symbolic NUMBER of blocks (S5); proved for 1..3 blocks per axis with symbolic dims, bounded stand-in beyond",
@@ -94,8 +102,343 @@ def t_merge_small_dims(ctx, it):
                  result, lambda v, j: sym.sor(v <= max_dim, _member(v, shape, n)))))
 
 
+# ---------------------------------------------------------------- P2 BlockPartitioner.__init__
+def sym_param(rank, name="d", lo=1):
+  dims = tuple(spec.fresh_int(f"{name}{i}", lo=lo) for i in range(rank))
+  return T.opaque("param", dims), dims
+
+
+def check_partitioner(ctx, bp, dims, block_size, tag="BlockPartitioner.__init__"):
+  """Post of B.2 for every axis; returns per-axis (is_split, q)."""
+  sizes_all = bp._split_sizes
+  ctx.oblige(f"{tag}.post.one-size-vector-per-axis", len(sizes_all) == len(dims))
+  splits = {ax: ind for ax, ind in bp._splits}
+  axes_in_order = [ax for ax, _ in bp._splits]
+  ctx.oblige(f"{tag}.post.splits-ordered-by-axis", axes_in_order == sorted(axes_in_order))
+  info = []
+  for i, d in enumerate(dims):
+    sizes = sizes_all[i]
+    n = sizes.shape[0]
+    j = spec.fresh_int(f"j{i}")
+    inr = sym.sand(j >= 0, j < n)
+    v = sizes.at((j,))
+    split = sym.sand(0 < block_size, block_size < d)
+    if i in splits:
+      ind = splits[i]
+      q = ind.shape[0]
+      ctx.oblige(f"{tag}.post.axis{i}.split-iff-0<block<d", split)
+      ctx.oblige(f"{tag}.post.axis{i}.at-least-one-cut", q >= 1)
+      ctx.oblige(f"{tag}.post.axis{i}.len(sizes)=cuts+1", n == q + 1)
+      ctx.oblige(f"{tag}.post.axis{i}.sizes-in-[1,block]", sym.implies(inr, sym.sand(v >= 1, v <= block_size)))
+      ctx.oblige(f"{tag}.post.axis{i}.all-but-last-equal-block", sym.implies(sym.sand(j >= 0, j < q), v == block_size))
+      last = sizes.at((q,))
+      ctx.oblige(f"{tag}.post.axis{i}.sizes-sum-to-d (q*block+last=d; List.sum_replicate)",
+                 q * block_size + last == d)
+      jj = spec.fresh_int(f"jj{i}")
+      cut = ind.at((jj,))
+      ctx.oblige(f"{tag}.post.axis{i}.cuts-at-multiples-strictly-inside",
+                 sym.implies(sym.sand(jj >= 0, jj < q),
+                             sym.sand(cut == (jj + 1) * block_size, cut > 0, cut < d)))
+      info.append((True, q))
+    else:
+      ctx.oblige(f"{tag}.post.axis{i}.unsplit-iff-not(0<block<d)", sym.snot(split))
+      ctx.oblige(f"{tag}.post.axis{i}.sizes=[d]", sym.sand(n == 1, sizes.at((0,)) == d))
+      info.append((False, 0))
+  return info
+
+
+def mk_partitioner(rank):
+
+  def t(ctx, it):
+    m = it.load_module(DS)
+    param, dims = sym_param(rank)
+    bs = spec.fresh_int("block_size")
+    bp = m.BlockPartitioner(param, bs)
+    check_partitioner(ctx, bp, dims, bs)
+    ctx.oblige("BlockPartitioner.__init__.post.shape-recorded", bp._shape == param.shape
+               if not isinstance(bp._shape, tuple) else all(a is b for a, b in zip(bp._shape, param.shape)))
+    ss = bp.split_sizes()
+    ctx.oblige("BlockPartitioner.split_sizes.post.returns-recorded-sizes", ss is bp._split_sizes)
+
+  return t
+
+
+# ---------------------------------------------------------------- P3 Preconditioner bookkeeping
+def expected_should(ptype, rank, PT):
+  if ptype == PT.ALL or rank <= 1:
+    return [True] * rank
+  if ptype == PT.INPUT:
+    return [True] * (rank - 1) + [False]
+  return [False] * (rank - 1) + [True]
+
+
+def mk_preconditioner(rank, ptype_name, blocks, comp):
+  """blocks: tuple per axis of number of blocks (1..3); comp: compression rank (0 or symbolic)."""
+
+  def t(ctx, it):
+    m = it.load_module(DS)
+    PT = m.PreconditionerType
+    ptype = PT[ptype_name]
+    param, dims = sym_param(rank)
+    bs = spec.fresh_int("block_size", lo=1)
+    for d, nb in zip(dims, blocks):
+      if nb == 1:
+        ctx.assume(d <= bs)
+      else:
+        ctx.assume(sym.sand(d > (nb - 1) * bs, d <= nb * bs))
+    cr = 0 if not comp else spec.fresh_int("compression_rank")
+    if comp:
+      ctx.assume(cr != 0)
+    pre = m.Preconditioner(param, bs, 4096, False, ptype, cr)
+    tag = "Preconditioner"
+    ctx.oblige(f"{tag}.__init__.post.transformed=original(no merge)",
+               all(a is b for a, b in zip(pre._transformed_shape, param.shape)))
+    should = pre.should_precondition_dims()
+    exp = expected_should(ptype, rank, PT)
+    ctx.oblige(f"{tag}.should_precondition_dims.post(B.4)", list(should) == exp)
+    nprec = sum(exp)
+    expo = pre.exponent_for_preconditioner()
+    ctx.oblige(f"{tag}.exponent_for_preconditioner.post=2*#preconditioned", expo == 2 * nprec)
+    shapes = pre.shapes_for_preconditioners()
+    nblocks = 1
+    for nb in blocks:
+      nblocks *= nb
+    ctx.oblige(f"{tag}.shapes_for_preconditioners.post.count=#blocks*#preconditioned-axes",
+               len(shapes) == nblocks * nprec)
+    # k-th shape: itertools.product order (last axis fastest), preconditioned axes in order
+    k = 0
+    ok = []
+    for combo in itertools.product(*[range(nb) for nb in blocks]):
+      for ax in range(rank):
+        if not exp[ax]:
+          continue
+        nb = blocks[ax]
+        piece = combo[ax]
+        size = bs if piece < nb - 1 else dims[ax] - (nb - 1) * bs
+        if nb == 1:
+          size = dims[ax]
+        sh = shapes[k]
+        pd = m._precond_dim(cr, size) if comp else size
+        ok.append(sym.sand(sh[0] == size, sh[1] == pd))
+        k += 1
+    ctx.oblige(f"{tag}.shapes_for_preconditioners.post.kth-shape=[s,precond_dim(s)]-in-product-order",
+               sym.sand(*ok) if ok else True)
+    # _preconds_for_grad: returns exactly `rank` slots, the preconditioned axes get their own root
+    roots = [object() for _ in range(nblocks * nprec)]
+    for b in range(nblocks):
+      got = pre._preconds_for_grad(roots, rank=rank, start=b * nprec, end=(b + 1) * nprec)
+      want = []
+      c_ = 0
+      for ax in range(rank):
+        if exp[ax]:
+          want.append(roots[b * nprec + c_])
+          c_ += 1
+        else:
+          want.append(None)
+      ctx.oblige(f"{tag}._preconds_for_grad.post.slot-j-holds-root-of-axis-j",
+                 len(got) == rank and all(g is w for g, w in zip(got, want)))
+
+  return t
+
+
+# ---------------------------------------------------------------- P4 tearfree reshaper
+def skolem_index(ctx, shape, name="i"):
+  idx = []
+  for a, d in enumerate(shape):
+    i = spec.fresh_int(f"{name}{a}")
+    ctx.assume(sym.sand(i >= 0, i < d))
+    idx.append(i)
+    ctx.index_terms.append(i)
+  return tuple(idx)
+
+
+def mk_reshaper(rank, block_mode):
+  """block_mode: 'zero' (no padding) or 'sym' (symbolic block size >= 2)."""
+
+  def t(ctx, it):
+    r = it.load_module(RS)
+    x, dims = sym_param(rank)
+    merge_dims = spec.fresh_int("merge_dims", lo=2)
+    block = 0 if block_mode == "zero" else spec.fresh_int("block_size", lo=2)
+    opts = r.Options(merge_dims, block)
+    shapes = r._derive_shapes(opts, x)
+    tag = "reshaper._derive_shapes"
+    merged, padded = shapes.merged_shape, shapes.padded_shape
+    ctx.oblige(f"{tag}.post.original-shape-recorded",
+               len(shapes.original_shape) == rank and all(a is b for a, b in zip(shapes.original_shape, dims)))
+    ctx.oblige(f"{tag}.post.same-rank", len(merged) == len(padded))
+    tot = 1
+    for d in dims:
+      tot = tot * d
+    mt = 1
+    for d in merged:
+      mt = mt * d
+    ctx.oblige(f"{tag}.post.merged-element-count-preserved", mt == tot)
+    ctx.oblige(f"{tag}.post.merged-has-no-unit-dim", sym.sand(*[m > 1 for m in merged]))
+    for a, (mm, pp) in enumerate(zip(merged, padded)):
+      if block_mode == "zero":
+        ctx.oblige(f"{tag}.post.axis{a}.block=0-means-no-padding", pp == mm)
+      else:
+        ctx.oblige(f"{tag}.post.axis{a}.padded>=merged", pp >= mm)
+        ctx.oblige(f"{tag}.post.axis{a}.padded<merged+block", pp < mm + block)
+        q = spec.fresh_int(f"qpad{a}")
+        ctx.oblige(f"{tag}.post.axis{a}.large-dims-become-block-multiples",
+                   sym.implies(mm >= block, SBool(z3.Exists([q.z], (pp == q * block).z))))
+        ctx.oblige(f"{tag}.post.axis{a}.small-dims-untouched", sym.implies(mm < block, pp == mm))
+    # round trip through the real merge()/unmerge() transformations on a one-leaf tree
+    mtx = r.merge(opts)
+    utx = r.unmerge(opts)
+    y, _ = mtx.update(x, mtx.init(x), x)
+    ctx.oblige("reshaper.merge.post.result-has-padded-shape",
+               len(y.shape) == len(padded) and sym.sand(*[a == b for a, b in zip(y.shape, padded)]))
+    z, _ = utx.update(y, utx.init(x), x)
+    ctx.oblige("reshaper.unmerge.post.result-has-original-shape",
+               len(z.shape) == rank and sym.sand(*[a == b for a, b in zip(z.shape, dims)]))
+    if rank:
+      idx = skolem_index(ctx, dims)
+      ctx.oblige("reshaper.unmerge(merge(x))[i]=x[i] at a Skolem index", z.at(idx) == x.at(idx))
+      # padding entries are exactly zero and real entries keep their value in the merged view
+      if len(padded):
+        jdx = []
+        for a, d in enumerate(padded):
+          j = spec.fresh_int(f"p{a}")
+          ctx.assume(sym.sand(j >= 0, j < d))
+          jdx.append(j)
+        outside = sym.sor(*[j >= m_ for j, m_ in zip(jdx, merged)])
+        ctx.oblige("reshaper.merge.post.padding-entries-are-zero", sym.implies(outside, y.at(tuple(jdx)) == 0))
+
+  return t
+
+
+# ---------------------------------------------------------------- P4/S6 tearfree shampoo blocks
+def mk_blocks(rank, large_axes):
+  """_blocks_metadata / _blockify / _deblockify for one placement of large axes."""
+
+  def t(ctx, it):
+    s = it.load_module(TS)
+    B = spec.fresh_int("block_size", lo=2)
+    opts = s.Options(block_size=B)
+    dims = []
+    nblk = {}
+    for a in range(rank):
+      if a in large_axes:
+        q = spec.fresh_int(f"q{a}", lo=1)
+        nblk[a] = q
+        dims.append(q * B)
+      else:
+        d = spec.fresh_int(f"d{a}", lo=2)
+        ctx.assume(d < B)
+        dims.append(d)
+    x = T.opaque("x", tuple(dims))
+    meta = s._blocks_metadata(opts, x.shape, "p")
+    tag = "shampoo._blocks_metadata"
+    ctx.oblige(f"{tag}.post.block-sizes=min(dim,B)",
+               len(meta.block_sizes) == rank and
+               sym.sand(*[bsz == (B if a in large_axes else dims[a]) for a, bsz in enumerate(meta.block_sizes)]))
+    ctx.oblige(f"{tag}.post.large-axes", list(meta.large_axes) == list(large_axes))
+    nb = 1
+    for a in large_axes:
+      nb = nb * nblk[a]
+    ctx.oblige(f"{tag}.post.num-blocks=prod(dim//B)", meta.num_blocks == nb)
+    tot = 1
+    for d in dims:
+      tot = tot * d
+    bt = meta.num_blocks
+    for bsz in meta.block_sizes:
+      bt = bt * bsz
+    ctx.oblige(f"{tag}.post.num_blocks*prod(block_sizes)=prod(param_shape)", bt == tot)
+    ctx.oblige(f"{tag}.post.blocks-axis=first-large-axis-or-0",
+               meta.blocks_axis == (large_axes[0] if large_axes else 0))
+    y = s._blockify(x, meta)
+    exp_shape = list(meta.block_sizes)
+    exp_shape.insert(meta.blocks_axis, meta.num_blocks)
+    ctx.oblige("shampoo._blockify.post.shape=[...,N@blocks_axis,...block sizes]",
+               len(y.shape) == rank + 1 and sym.sand(*[a == b for a, b in zip(y.shape, exp_shape)]))
+    z = s._deblockify(y, meta)
+    ctx.oblige("shampoo._deblockify.post.shape=param_shape",
+               len(z.shape) == rank and sym.sand(*[a == b for a, b in zip(z.shape, dims)]))
+    if rank:
+      # Skolem index in mixed-radix form on large axes: i = l*B + j (division theorem)
+      idx = []
+      for a, d in enumerate(dims):
+        if a in large_axes:
+          l_ = spec.fresh_int(f"il{a}")
+          j_ = spec.fresh_int(f"ij{a}")
+          ctx.assume(sym.sand(l_ >= 0, l_ < nblk[a], j_ >= 0, j_ < B))
+          idx.append(l_ * B + j_)
+        else:
+          i_ = spec.fresh_int(f"i{a}")
+          ctx.assume(sym.sand(i_ >= 0, i_ < d))
+          idx.append(i_)
+      idx = tuple(idx)
+      ctx.axioms_used.add("division theorem: every 0<=i<q*B is l*B+j with 0<=l<q, 0<=j<B")
+      ctx.oblige("shampoo._deblockify(_blockify(x))[i]=x[i] at a Skolem index", z.at(idx) == x.at(idx))
+      # each block is the contiguous box [l*B,(l+1)*B) x [r*B,(r+1)*B)
+      bidx = []
+      for a, d in enumerate(exp_shape):
+        j = spec.fresh_int(f"b{a}")
+        ctx.assume(sym.sand(j >= 0, j < d))
+        bidx.append(j)
+      if len(large_axes) == 2:
+        l = spec.fresh_int("l")
+        rr = spec.fresh_int("r")
+        ctx.assume(sym.sand(l >= 0, l < nblk[large_axes[0]], rr >= 0, rr < nblk[large_axes[1]]))
+        bidx[meta.blocks_axis] = l * nblk[large_axes[1]] + rr
+      blk = bidx[meta.blocks_axis]
+      inner = bidx[:meta.blocks_axis] + bidx[meta.blocks_axis + 1:]
+      src = list(inner)
+      if len(large_axes) == 1:
+        src[large_axes[0]] = blk * B + inner[large_axes[0]]
+        ctx.oblige("shampoo._blockify.post.block-b-is-the-contiguous-slab-[b*B,(b+1)*B)",
+                   y.at(tuple(bidx)) == x.at(tuple(src)))
+      elif len(large_axes) == 2:
+        l_ax, r_ax = large_axes
+        R = nblk[r_ax]
+        src[l_ax] = l * B + inner[l_ax]
+        src[r_ax] = rr * B + inner[r_ax]
+        ctx.oblige("shampoo._blockify.post.block-l*R+r-is-the-contiguous-box",
+                   y.at(tuple(bidx)) == x.at(tuple(src)))
+      else:
+        ctx.oblige("shampoo._blockify.post.single-block-is-the-tensor", y.at(tuple(bidx)) == x.at(tuple(inner)))
+
+  return t
+
+
+def t_split_exclusively(ctx, it):
+  s = it.load_module(TS)
+  for n in range(0, 5):
+    ls = [spec.fresh_int(f"e{i}") for i in range(n)]
+    for k in range(0, 3):
+      for splits in itertools.combinations(range(n), k):
+        parts = s._split_exclusively(ls, list(splits))
+        ctx.oblige("shampoo._split_exclusively.post.k+1-segments", len(parts) == k + 1)
+        flat = []
+        bounds = [-1] + list(splits) + [n]
+        okk = True
+        for (lo, hi), seg in zip(zip(bounds, bounds[1:]), parts):
+          okk = okk and len(seg) == hi - lo - 1 and all(a is b for a, b in zip(seg, ls[lo + 1:hi]))
+        ctx.oblige("shampoo._split_exclusively.post.segments-are-the-runs-between-splits", okk)
+
+
 def tasks(tier):
   ts = [Task("merge_small_dims[symbolic rank]", t_merge_small_dims)]
+  for r in range(0, 5):
+    for bm in ("zero", "sym"):
+      ts.append(Task(f"reshaper[rank={r},block={bm}]", mk_reshaper(r, bm)))
+  for r in range(0, 6):
+    for k in (0, 1, 2):
+      for la in itertools.combinations(range(r), k):
+        ts.append(Task(f"tearfree.shampoo.blocks[rank={r},large_axes={la}]", mk_blocks(r, la)))
+  ts.append(Task("tearfree.shampoo._split_exclusively", t_split_exclusively))
+  for r in range(0, 6):
+    ts.append(Task(f"BlockPartitioner.__init__[rank={r}]", mk_partitioner(r)))
+  for r in range(1, 4):
+    for pt in ("ALL", "INPUT", "OUTPUT"):
+      opts = [1, 2] if tier == "quick" or r == 3 else [1, 2, 3]
+      for blocks in itertools.product(opts, repeat=r):
+        for comp in (False, True):
+          ts.append(Task(f"Preconditioner[rank={r},{pt},blocks={blocks},compressed={comp}]",
+                         mk_preconditioner(r, pt, blocks, comp)))
   return ts
 
 
@@ -104,5 +447,10 @@ def main(tier):
   t0 = time.time()
   ts = tasks(tier)
   results = H.run_tasks(ts, H.os.path.join(H.VERIF, "out", PID))
+  bounded = []
+  if tier == "thorough":
+    bounded.append(H.bounded_from_oracle("B7 native exhaustive enumeration (bounded stand-in, not counted as proved)",
+                                         H.native_oracle(PID, "thorough")))
   return H.finish_check(PID, tier, results, t0, checker_cmd=f"./verify {PID} --tier {tier}",
-                        not_covered=NOT_COVERED)
+                        not_covered=NOT_COVERED, replay=lambda: H.native_oracle(PID, "quick"),
+                        bounded=bounded, structural=STRUCTURAL)
